@@ -56,7 +56,10 @@ var c03Lib = []string{
 }
 
 func c03Calls(t *rapid.T) (call, other string, heavy bool) {
-	kind := rapid.IntRange(0, 17).Draw(t, "call")
+	kind := rapid.IntRange(0, 20).Draw(t, "call")
+	if kind > 17 {
+		kind = 15 // functions that read locals they may not have assigned see whatever memory they land on
+	}
 	mk := func() (string, bool) {
 		n := func(hi int) int { return rapid.IntRange(0, hi).Draw(t, "arg") }
 		d := rapid.SampledFrom([]int{0, 1, 40, 130, 300, 1000}).Draw(t, "deep")
@@ -111,6 +114,7 @@ type c03Case struct {
 	Other string   `json:"other"` // the same function with other arguments
 	Wide  int      `json:"wide"`
 	Deep  int      `json:"deep"`
+	Step  int      `json:"step"`
 }
 
 // placements returns, per placement, the statements to run after the library
@@ -134,13 +138,22 @@ func (c c03Case) placements() map[string][]string {
 	if other == "" {
 		other = "0"
 	}
+	xp, xa := "", ""
+	for i := 0; i < c.Step; i++ {
+		xp += ", " + letters("zx", i)
+		xa += ", " + fmt.Sprint(i)
+	}
 	return map[string][]string{
 		// another activation of the same function earlier in the same statement (recycled iterator contexts)
 		"after-other-call":    {"{\nzo = [" + other + ", " + other + "]\n[" + f + "]\n}"},
 		"between-other-calls": {"{\nzo = [" + other + "]\nzr = [" + f + "]\nzo = [" + other + "]\nzr + [" + f + "]\n}"},
 		// every call depth from 0 to 300 in one session: each frame lands on slots earlier, shallower calls used
-		"depth-sweep": {"zd = (n) -> if n <= 0 " + f + " else zd(n - 1)", "zdo = (n) -> if n <= 0 " + other + " else zdo(n - 1)",
-			"{\nzr = []\nfor zi <- fromto(0, 300) {\nzo = [zdo(zi)]\nzr = zr + [zd(zi + 1)]\n}\nzr\n}"},
+		// (the frames of the recursion are c.Step slots wider than the minimum, so that over the cases
+		// the measured call starts at every offset from the stack's growth boundaries)
+		"depth-sweep": {"zd = (n" + xp + ") -> if n <= 0 " + f + " else zd(n - 1" + xp + ")", "zdo = (n" + xp + ") -> if n <= 0 " + other + " else zdo(n - 1" + xp + ")",
+			"{\nzr = []\nfor zi <- fromto(0, 200) {\nzo = [zdo(zi" + xa + ")]\nzr = zr + [zd(zi + 1" + xa + ")]\n}\nzr\n}"},
+		"depth-sweep-self": {"zd = (n" + xp + ") -> if n <= 0 " + f + " else zd(n - 1" + xp + ")",
+			"{\nzr = []\nfor zi <- fromto(0, 200) zr = zr + [zd(zi" + xa + ")]\nzr\n}"},
 		"wide-loop-after-loop": {wideLoop.String(), "{\nfor zq <- fromto(0, 2) zq\nwideloop()\n}"},
 		"top":                  {"[" + f + "]"},
 		"twice":                {"[" + f + ", " + f + "]"},
@@ -246,7 +259,8 @@ func c03Prop(rec *ev.Recorder) func(t *rapid.T) {
 	return func(t *rapid.T) {
 		c := c03Case{Lib: append([]string{}, c03Lib...),
 			Wide: rapid.SampledFrom([]int{100, 127, 128, 129, 200, 300, 400}).Draw(t, "wide"),
-			Deep: rapid.SampledFrom([]int{0, 1, 40, 60, 130, 500, 3000}).Draw(t, "depth")}
+			Deep: rapid.SampledFrom([]int{0, 1, 40, 60, 130, 500, 3000}).Draw(t, "depth"),
+			Step: rapid.IntRange(0, 6).Draw(t, "step")}
 		heavy := false
 		if rapid.IntRange(0, 3).Draw(t, "source") == 0 {
 			g := &gen.G{T: t, NoIO: true}
